@@ -47,6 +47,20 @@ func VerifSectors(r *Region) []int32 {
 	sort.Slice(out, func(i, j int) bool { return out[i] < out[j] })
 	return out
 }
+
+// VerifFreeKeys returns the sorted list of sectors that have an entry in the occupancy map but are
+// marked free (a region built by writes has such entries, a region rebuilt by Load has none): part
+// of the state key, so that code depending on the shape of the map is explored from both.
+func VerifFreeKeys(r *Region) []int32 {
+	out := make([]int32, 0, len(r.sectors))
+	for k, v := range r.sectors {
+		if !v {
+			out = append(out, k)
+		}
+	}
+	sort.Slice(out, func(i, j int) bool { return out[i] < out[j] })
+	return out
+}
 GO
 cat > "$work/overlay.json" <<JSON
 {"Replace": {"$repo/save/region/mca.go": "$work/mca.go", "$repo/save/region/mca_verif.go": "$work/mca_verif.go"}}
